@@ -160,12 +160,13 @@ class C09(F.PropCheck):
         return [boot, fo, fc, tilt_ms, ttype, margin, pos0, tilt0, now0]
 
     def gen_dts(self, rng, total_us, maxn):
-        style = rng.choice(['exact10', 'jitter', 'random', 'mixed', 'coarse'])
+        style = rng.choice(['exact10', 'jitter', 'random', 'mixed', 'coarse', 'fine'])
         out = []; t = 0
         while t < total_us and len(out) < maxn:
             if style == 'exact10': dt = 10000
             elif style == 'jitter': dt = 10000 + rng.choice([0, 0, 0, rng.randrange(0, 20001)])
             elif style == 'random': dt = rng.randrange(1000, 250001)
+            elif style == 'fine': dt = rng.randrange(1000, 3000)          # lower end of the quantifier, not whole milliseconds
             elif style == 'coarse': dt = rng.choice([100000, 250000, 200000, rng.randrange(50000, 250001)])
             else: dt = rng.choice([1000, 10000, 10000, 10001, 9999, 30000, 250000, rng.randrange(1000, 250001)])
             out.append(dt); t += dt
@@ -301,6 +302,7 @@ class C09(F.PropCheck):
         for o in outs:
             if o[0] == 'REPORT': cur.append(o[2])
             elif o[0] == 'ST': reps.append(cur); cur = []
+        rep_tilt = None; stale_t = 0
         rep_pos = None; stale_us = 0; maxdt_seen = 0     # last position value handed to the server; how long it has differed from the stored one
         for o in outs:
             if o[0] == 'REPORT' and len(o[2]) >= 2:
@@ -317,7 +319,7 @@ class C09(F.PropCheck):
             return True
         for (k, a, _) in case.evs:
             if k == 'CFG':
-                rep_pos = None; stale_us = 0
+                rep_pos = None; stale_us = 0; rep_tilt = None; stale_t = 0
                 cfg = a; idl = Ideal(a); pos = a[6]; tilt = a[7] if idl.supported() else -1; d = 0; seg = None
                 blocked = False; synced = False     # synced: a callback has run (last_time is not initialised before)
                 wf = state_ok(pos, tilt)
@@ -349,6 +351,12 @@ class C09(F.PropCheck):
                     if not (ntilt in (0, -1) or known(ntilt)): v.append('%s: stored tilt %d is neither unknown nor inside 0..100 %%' % (where, ntilt))
                 if not (rpos == -1 or 0 <= rpos <= 100): v.append('%s: reported position %d is not -1 or 0..100' % (where, rpos))
                 if not (rtilt == -1 or 0 <= rtilt <= 100): v.append('%s: reported tilt %d is not -1 or 0..100' % (where, rtilt))
+                # --- the reported value is the stored one rounded to percent ("range checks and rounding to percent"): -1 for an unknown
+                # position; tilt: -1 when tilting is not supported, 0 for an unknown tilt
+                exp_pos = (npos - 100 + 50) // 100 if known(npos) else -1
+                exp_tilt = -1 if not idl.supported() else ((ntilt - 100 + 50) // 100 if known(ntilt) else 0)
+                if rpos != exp_pos: v.append('%s: stored position %d is reported as %d (expected %d)' % (where, npos, rpos, exp_pos))
+                if rtilt != exp_tilt: v.append('%s: stored tilt %d is reported as %d (expected %d)' % (where, ntilt, rtilt, exp_tilt))
                 # --- direction
                 if wf and d in (1, 2) and known(pos) and known(npos):
                     if d == 2 and npos > pos: v.append('%s: position rose %d -> %d while moving up' % (where, pos, npos))
@@ -386,6 +394,15 @@ class C09(F.PropCheck):
                 maxdt_seen = max(maxdt_seen, a[0])
                 for rb in reps[si - 1]:
                     rep_pos = rb[0] - 256 if rb[0] > 127 else rb[0]
+                    if cfg[4] != 0 and len(rb) > 1: rep_tilt = rb[1] - 256 if rb[1] > 127 else rb[1]
+                # the tilt byte of a facade-blind value follows the stored tilt in the same way (a change of the tilt alone is reported too)
+                if rep_tilt is not None and cfg[4] != 0:
+                    if rep_tilt != exp_tilt:
+                        stale_t += a[0]
+                        if stale_t > 200000 + 2 * maxdt_seen + a[0]:
+                            v.append('%s: the tilt handed to the server (%d) has differed from the stored one (%d) for %d us (reporting period 200 ms)' % (where, rep_tilt, exp_tilt, stale_t))
+                            stale_t = -10**12
+                    else: stale_t = 0
                 if rep_pos is not None:
                     if rep_pos != rpos:
                         stale_us += a[0] if stale_us or True else 0
